@@ -106,6 +106,13 @@ func buildPlan(co *corpus, thorough bool) []item {
 		if cc.c.kind != kFailPkt {
 			for si := range cc.seeds {
 				s := &cc.seeds[si]
+				if s.gen != nil && (s.sweep || s.name == "zero") {
+					// variable-length elements at their extreme legal lengths (varlen_test.go);
+					// the zero message too (a generator value equal to it is not in the corpus)
+					for li, nl := 0, varLeafCount(s); li < nl; li++ {
+						add(item{Codec: ci, Seed: si, Family: "varlen", Arg: li, cost: 60 * 1000 * 3})
+					}
+				}
 				if !s.sweep || s.gen == nil {
 					continue
 				}
@@ -804,6 +811,10 @@ func (w *worker) runItem(it item, resumeAfter int) *itemResult {
 		w.sweepField(c, w.curSeed, it.Arg, resumeAfter, nil)
 		return res
 	}
+	if it.Family == "varlen" {
+		w.sweepVar(c, w.curSeed, it.Arg, resumeAfter, nil)
+		return res
+	}
 	if it.Family == "extrec" {
 		w.runExtrec(cc, w.curSeed, resumeAfter, nil)
 		return res
@@ -999,6 +1010,11 @@ func spawn(id int, dir string, tier string) (*wproc, error) {
 	if pf := os.Getenv("VERIF_C10_PROFILE"); pf != "" && id == 0 {
 		args = append(args, "-test.cpuprofile", pf) // debugging aid
 	}
+	if cd := os.Getenv("VERIF_C10_COVER_DIR"); cd != "" {
+		// audit aid (binary built by `bin/check --cover`): the enumeration runs in the
+		// workers, so the block profile has to be written by them
+		args = append(args, "-test.coverprofile", fmt.Sprintf("%s/C10_lnwire_w%d.out", cd, id))
+	}
 	p.cmd = exec.Command(self, args...)
 	p.cmd.Env = append(os.Environ(), "VERIF_C10_WORKER=1", "GOMAXPROCS=1", "GOGC=800", "VERIF_TIER="+tier,
 		"VERIF_C10_PROGRESS="+p.progPath, "VERIF_C10_HASHES="+p.hashPath)
@@ -1113,6 +1129,22 @@ func TestC10Lnwire(t *testing.T) {
 	}
 	nBuildViols := len(buildViols)
 	fmt.Printf("INFO lnwire corpus: %d codecs, %d plan items, built in %.1fs\n", len(co.codecs), len(plan), run.Elapsed().Seconds())
+	if os.Getenv("VERIF_C10_DEBUG") != "" {
+		for _, it := range plan {
+			if it.Family == "varlen" {
+				s := &co.codecs[it.Codec].seeds[it.Seed]
+				safely(func() {
+					l := varLeaves(s.gen())[it.Arg]
+					fmt.Printf("INFO varlen element %s %s %s (%s) base-len=%d\n", co.codecs[it.Codec].c.name, s.name, l.path, l.kind, func() int {
+						if l.kind == "fv" {
+							return -1
+						}
+						return l.v.Len()
+					}())
+				})
+			}
+		}
+	}
 	pw := &worker{co: co, thorough: thorough, res: &itemResult{Outcomes: map[string]int64{}}} // for crash attribution only
 
 	nw := runtime.NumCPU()
@@ -1400,6 +1432,7 @@ func TestC10Lnwire(t *testing.T) {
 		"lnwire_workers":                        nw,
 	}
 	run.Assumptions = append(run.Assumptions,
+		"lnwire half, varlen family: a value whose variable-length element was resized counts as well-formed when the real encoder accepts it, with three legality rules stated in the harness instead of read from lnd: strings (DNS hostnames) have 1..255 bytes, a DeliveryAddress has at most 34 bytes (BOLT 2 script forms), types of package tor are not entered; ExtraOpaqueData / CustomRecords / ExtraSignedFields are left to the extrec family; bases are the field-sweep value and the zero message of each codec",
 		"lnwire half: 'all byte strings up to 65535 bytes' is covered through all bodies <= 2 (quick) / <= 3 (thorough) bytes and the stated single-edit neighbourhoods of a fixed corpus; seeds come from the repository's RandTestMessage generators with fixed rapid seeds (sampling) - the enumeration around each seed is exhaustive",
 		"lnwire half: 'never hangs' is decided by a deterministic read-count budget (8*len+256 reads on the message reader); a decode that spins without reading is killed by a no-progress watchdog, its input is saved, skipped and named in caps_hit (exhaustive:false, no verdict) unless VERIF_C10_STALL_VERDICT=violation asks for a 3x re-run confirmation",
 		"lnwire half, extrec family: the extension TLV stream of a base encoding is located by observing the real decoder's reads (the first 512-byte-buffer read = io.ReadAll in ExtraOpaqueData.Decode, or a 1-byte read at offset 2 for decoders that hand the reader to a tlv.Stream) and must parse as a canonical stream with the reference parser; bases where it cannot be located, that are no decode/encode fixpoint or exceed 2048 bytes are skipped and counted (lnwire_outcomes extrec-base:*, lnwire_extrec_codecs_without_base); the known record types of a message type are learnt from its encoder's output on the corpus values and from the tlv.TlvTypeN names in its struct, unknown even types may be refused, onion failures are not part of the family",
@@ -1512,6 +1545,20 @@ func (w *worker) caseAt(it item, ord int) replayCase {
 				vals := sweepValues(ls[it.Arg].bits, ls[it.Arg].signed, sweepUpto(w.thorough))
 				if ord >= 0 && ord < len(vals) {
 					rc.Value = fmt.Sprint(vals[ord])
+				}
+			}
+		})
+		return rc
+	}
+	if it.Family == "varlen" {
+		rc.Kind, rc.Desc = "varlen", w.curSeed.desc
+		safely(func() {
+			ls := varLeaves(w.curSeed.gen())
+			if it.Arg < len(ls) {
+				rc.Field = ls[it.Arg].path
+				w.res = &itemResult{Outcomes: map[string]int64{}}
+				if cs := w.varCases(c, w.curSeed, it.Arg, ls[it.Arg]); ord >= 0 && ord < len(cs) {
+					rc.Value = cs[ord]
 				}
 			}
 		})
@@ -1634,6 +1681,15 @@ func genFromDesc(d map[string]any) func() any {
 			ex = append(ex, m)
 		}
 		return maxValue(t, ex, num("body"))
+	case "addrkinds":
+		t := lnwire.MessageType(num("type"))
+		k := num("seed")
+		spec, _ := d["spec"].(string)
+		return func() any {
+			m, _ := randMsg(t, k)
+			setAddrFields(m, spec)
+			return m
+		}
 	case "zlib":
 		t := lnwire.MessageType(num("type"))
 		n := num("ids")
@@ -1767,6 +1823,34 @@ func replayLnwire(t *testing.T, run *evid.Run, path string) {
 		U := fromX(rc.Recs)
 		fmt.Printf("INFO base body %s; records merged into its extension stream: %s\n", hexs(sb, 64), showU(U))
 		w.runExtrec(co.codecs[0], s, -1, U)
+	} else if rc.Kind == "varlen" {
+		gen := genFromDesc(rc.Desc)
+		if g, _ := rc.Desc["gen"].(string); g == "zero" {
+			pfx := c.prefix
+			gen = func() any {
+				m, _ := lnwire.MakeEmptyMessage(lnwire.MessageType(binary.BigEndian.Uint16(pfx[:])))
+				return m
+			}
+		}
+		if gen == nil {
+			fmt.Printf("INFO cannot rebuild the value from %v\n", rc.Desc)
+			os.Exit(3)
+		}
+		s := &seed{name: "replay", gen: gen, desc: rc.Desc}
+		w.curSeed = s
+		w.curItem = item{Family: "varlen"}
+		li := -1
+		for i, l := range varLeaves(gen()) {
+			if l.path == rc.Field {
+				li = i
+			}
+		}
+		if li < 0 {
+			fmt.Printf("INFO element %q not found in the rebuilt value\n", rc.Field)
+			os.Exit(3)
+		}
+		fmt.Printf("INFO value %v of %s: setting element %s to %s\n", rc.Desc, rc.Codec, rc.Field, rc.Value)
+		w.sweepVar(c, s, li, -1, &rc.Value)
 	} else if rc.Kind == "field" {
 		gen := genFromDesc(rc.Desc)
 		if gen == nil {
